@@ -199,6 +199,31 @@ Theorem refresh_is_audience_neutral : forall c st qy up aged rf st' ob x,
 Proof. exact refresh_upstream_sees_no_subnet. Qed.
 Print Assumptions refresh_is_audience_neutral.
 
+(* ---------------------------------------------------------------- declared scopes the code cannot use *)
+(* Full statement wanted: an answer whose authority option carries a non-zero SCOPE, fetched with a
+   forwarded subnet, is never filed under the shared key unless min(forwarded bits, floor) = 0.
+   Proved for the options ReadResponseScope accepts (family 1/2 matching the address, SCOPE within
+   the address width): the answer is filed under the declared scope cut to min(declared, forwarded,
+   floor) — and then scoped_only_inside_scope applies. *)
+Theorem tailored_answer_filed_scoped_partial : forall c st qy up aged rf st' ob s rs,
+  serve c st qy up aged rf = (st', ob) -> ob_src ob = 0 ->
+  req_scope_of c qy = Some s -> read_response_scope (u_opts up) = Some rs ->
+  exists ttl, ob_stored ob = Some (normalize_scope (clamp_scope (policy_of (c_b c)) (Some rs) (Some s)), ttl).
+Proof. exact tailored_answer_filed_scoped. Qed.
+Print Assumptions tailored_answer_filed_scoped_partial.
+
+(* False beyond that (finding unusable-scope-filed-shared): SCOPE /33 on an IPv4 option — a scope
+   "longer than what was forwarded", which the property wants cut down to the forwarded /24 — is
+   read as "no scope"; the answer goes under the shared key and a client that sent no subnet option
+   is served it.  Replayed on the Go code by the cache driver on every run. *)
+Theorem tailored_answer_never_shared_refuted :
+  tailored (mk_uresp 1 60000000000 (Some [OEcs (mk_ecs 1 24 33 (mk_ipb 4 3405803776))])) = true /\
+  snd (run overlong_cfg [] overlong_ops) =
+  [ mk_obs 0 1 (Some (Some ecs_a)) (Some (None, 60000000000%Z)) None;
+    mk_obs 2 1 None None None ].
+Proof. exact overlong_scope_is_shared. Qed.
+Print Assumptions tailored_answer_never_shared_refuted.
+
 (* ---------------------------------------------------------------- scoped_ttl_capped *)
 (* every history, no premise: a scoped entry never outlives the configured limit (when one is set) *)
 Theorem scoped_ttl_capped : forall c ops e sS,
